@@ -57,7 +57,7 @@ def run(ctx):
             extra_case = {}
             if cls == "data-race":
                 extra_case["race_report"] = (res.get("extra") or {}).get("race_report_history_%d" % i, "")
-                m2 = re.findall(r"simpleiot/([\w/.-]+\.go:\d+)", extra_case["race_report"])
+                m2 = re.findall(r"/((?:store|client|data|api|server|modbus|node)/[\w.-]+\.go:\d+)", extra_case["race_report"])
                 if m2:
                     cls = "data-race"
                     extra_case["locations"] = sorted(set(m2))[:8]
